@@ -174,6 +174,14 @@ def c01(tier, rep):
     cp, _ = fam_captures.chain_programs(tier)
     frc = e2.run_family("c11chains", cp)
     judge_family(rep, frc)
+    # operators mixed with `>>>` / `<<<` around a step boundary: the deferred-opener layouts of the wrapper family (shared with C02)
+    from . import fam_wrappers
+
+    wp, _ = fam_wrappers.programs(tier)
+    wp = [q for q in wp if "~wrap" in q.id or "close~" in q.id]
+    frw = e2.run_family("c01wrapsteps", wp)
+    judge_family(rep, frw)
+    rep.set("deferred_wrapper_layout_programs", len(wp))
     rep.set("states", len(stats["kinds"]))
     rep.set("transitions", len(stats["rows"]))
     rep.set("operator_pairs", len(stats["pairs"]))
@@ -727,6 +735,10 @@ def c12(tier, rep):
                     lets = [(b, (b + len(sub)) % 2 == 1) for b in sub]
                     p = fp.build(mac, ds, flavour=fl if mac.startswith("try") else None, lets=lets, readers=readers)
                     progs.append(fp.to_prog("%s/%s/%s/%s" % (mac, fl, fp.pname(ds), "".join(map(str, sub))), p, fp.offset_rows()))
+                    if fl == "Res" and len(sub) == n and not ("async" in mac and "spawn" in mac):
+                        # every later step is a deferred, explicitly closed wrapper whose inner operand is the reading capture
+                        p = fp.build(mac, ds, flavour="Res" if mac.startswith("try") else None, lets=lets, readers=readers, wrap=True)
+                        progs.append(fp.to_prog("%s/%s/%s/%s/wrap" % (mac, fl, fp.pname(ds), "".join(map(str, sub))), p, fp.offset_rows()))
                     if fl == "Res" and mac in ("try_join", "try_join_spawn") and len(sub) == n and max(ds) >= 3:
                         p = fp.build(mac, ds, flavour="Res", lets=lets, readers=readers, err_after=True)
                         progs.append(fp.to_prog("%s/%s/%s/%s/err" % (mac, fl, fp.pname(ds), "".join(map(str, sub))), p, fp.offset_rows()))
